@@ -42,6 +42,17 @@ def run(ctx):
         for mix in ('clean', 'warn'):
             general.append({'banner': b, 'kex': ['sntrup761x25519-sha512@openssh.com'] if mix == 'clean' else ['curve25519-sha256'], 'key': ['ssh-ed25519'],
                             'enc': ['aes256-gcm@openssh.com'] if mix == 'clean' else ['aes256-ctr'], 'mac': ['hmac-sha2-512-etm@openssh.com'], 'client_audit': False})
+    # the worst finding carried by ONE algorithm, for every shape of database entry (entries with 2, 3 and 4 components): beside otherwise clean lists
+    dbt = inproc.tables()
+    clean = {'kex': ['sntrup761x25519-sha512@openssh.com'], 'key': ['ssh-ed25519'], 'enc': ['aes256-gcm@openssh.com'], 'mac': ['hmac-sha2-512-etm@openssh.com']}
+    for c in ('kex', 'key', 'enc', 'mac'):
+        for ln in (2, 3, 4):
+            cands = sorted(n for n, e in dbt[c].items() if len(e) == ln and not n.endswith('-*') and any(x for x in e[1]))
+            for n in (cands[:2] if q else cands):
+                pz = {'banner': 'SSH-2.0-OpenSSH_9.6', 'client_audit': False}
+                pz.update({k: list(v) for k, v in clean.items()})
+                pz[c] = pz[c] + [n]
+                general.append(pz)
     recs = reportfam.standard(ctx, 250 if q else 4000, parts=('status', 'items'), peers=[gg.peer() for _ in range(250 if q else 4000)] + general)
     # end to end (real command line over TCP, server audits and -c client audits): the process exit status against the printed report
     recs += reportfam.cli_records(ctx, [r['peer'] for r in rng.sample(recs, min(len(recs), 16 if q else 300))] + general[:4], parts=('status', 'items'))
@@ -54,6 +65,15 @@ def run(ctx):
         if r['text']['ret'] != want:
             ctx.violation('status-vs-report/%s' % reportfam.sev_mix(r), 'output() returned %r but the worst tag in its own report is %r' % (r['text']['ret'], want),
                           {'op': 'output', 'peer': reportfam.jsonable_peer(r['peer'])})
+        # the JSON report of the same audit carries the same worst finding (the status is computed once, in the text pass): judged for peers without unknown names,
+        # which the two views rate differently by design (text: warning, JSON: failure - see C03)
+        if 'pjson' in r:
+            jal = canon.json_algs(r['pjson'])
+            if not any('unknown algorithm' in t for a in jal for (l, t) in a['notes']):
+                worst = lambda algs: 3 if any(l == 'fail' for a in algs for (l, t) in a['notes']) else 2 if any(l == 'warn' for a in algs for (l, t) in a['notes']) else 0
+                if worst(jal) != worst(r['ptext']['algs']):
+                    ctx.violation('json-report-vs-status', 'the worst algorithm finding of the JSON report is %r, of the text report (which sets the exit status %r) %r' % (worst(jal), r['text']['ret'], worst(r['ptext']['algs'])),
+                                  {'op': 'output', 'peer': reportfam.jsonable_peer(r['peer'])})
         if r['json']['ret'] != r['text']['ret']:
             ctx.violation('status-json-differs', 'JSON mode returns %r, text mode %r' % (r['json']['ret'], r['text']['ret']), {'op': 'output', 'peer': reportfam.jsonable_peer(r['peer'])})
     sub = recs if not q else rng.sample(recs, min(len(recs), 40))
